@@ -212,14 +212,30 @@ func (o optionsByLocation) Len() int {
 	return len(o)
 }
 
+// Less is a total order, so that the result does not depend on the (unspecified)
+// order in which protobuf ranges over extension fields: options with a known
+// source line come first, by line; the others by the extension's index in its
+// file; ties (same line, or the same index in two different files) by full name.
 func (o optionsByLocation) Less(i, j int) bool {
-	if o[i].SourceLocation == nil || o[j].SourceLocation == nil {
+	iLine, jLine := o[i].startLine(), o[j].startLine()
+	if (iLine != 0) != (jLine != 0) {
+		return iLine != 0
+	}
+	if iLine != jLine {
+		return iLine < jLine
+	}
+	if iLine == 0 && o[i].Desc.Index() != o[j].Desc.Index() {
 		return o[i].Desc.Index() < o[j].Desc.Index()
 	}
-	if o[i].SourceLocation.StartLine == 0 || o[j].SourceLocation.StartLine == 0 {
-		return o[i].Desc.Index() < o[j].Desc.Index()
+	return o[i].Desc.FullName() < o[j].Desc.FullName()
+}
+
+// startLine is the source line the option was written on, 0 when unknown.
+func (opt *OptionDefinition) startLine() int32 {
+	if opt.SourceLocation == nil {
+		return 0
 	}
-	return o[i].SourceLocation.StartLine < o[j].SourceLocation.StartLine
+	return opt.SourceLocation.StartLine
 }
 
 func (o optionsByLocation) Swap(i, j int) {
